@@ -58,7 +58,9 @@ class patched_build:
             lv = level_of(type(self_b).__name__, build_context)
             cid = getattr(pattern_node, "cid", None) or f"n{len(log.calls)}"
             log.calls.append((type(self_b).__name__, cid, None if build_context is None else build_context.ancester_type.name))
-            return child_stub("t:" + cid, lv, levels, name=getattr(pattern_node, "name", None))
+            kids = getattr(pattern_node, "children", None)
+            return child_stub("t:" + cid, lv, levels, name=getattr(pattern_node, "name", None), times=getattr(pattern_node, "times", None),
+                              nkids=len(kids) if type(kids) is list else None)
         cls.build = build
         return self
 
